@@ -193,7 +193,9 @@ func checkCase(tc *tcase, variant int, withIndex bool, dir string) (probs []prob
 	}
 	if verr != nil || verr2 != nil {
 		if withIndex && verr != nil {
-			idx, e := bleve.New(filepath.Join(dir, "invalid.bleve"), im)
+			p := filepath.Join(dir, "invalid.bleve")
+			idx, e := bleve.New(p, im)
+			defer os.RemoveAll(p)
 			if e == nil {
 				_ = idx.Close()
 				probs = append(probs, problem{"invalid-mapping-accepted", "bleve.New accepted a mapping whose Validate() fails"})
